@@ -457,6 +457,8 @@ func (w *World) genHistory(p HistParams) *History {
 	case "batches":
 		w.scenarioBatches(h, deliver, deliverBatch)
 		w.scenarioSidePow(h, deliver)
+	case "sharedtx":
+		w.scenarioSharedTx(h, deliver)
 	}
 	if len(h.Ops) > 0 && h.Ops[len(h.Ops)-1].Dump == nil {
 		h.Ops[len(h.Ops)-1].Dump = w.dump(h.NUT)
@@ -1070,6 +1072,106 @@ func (w *World) scenarioSidePow(h *History, deliver func(*TNode) *Op) {
 		}
 	}
 	h.Stats["scenario-sidepow"]++
+}
+
+// scenarioSharedTx: the SAME transactions - a stake S and, once its lock has expired, the unstake T that empties the
+// fund again - are included on three branches from one parent, at different heights: branch A (S in the first block),
+// branch B (S one block later, so the fund's unlock height differs; T connected a second time), branch C (shares B's
+// blocks up to before T and outweighs it: T is undone a second time). What the node keeps under a transaction id when
+// the transaction is connected must be what THIS connection saw.
+func (w *World) scenarioSharedTx(h *History, deliver func(*TNode) *Op) {
+	rng := w.rng
+	base := w.nodeOfTop(h.NUT)
+	if base == nil || base.Snap == nil {
+		return
+	}
+	force := func(parent *TNode, kind, wi int) ([]*transaction.Transaction, []TxMeta) {
+		w.forceKind, w.forceWallet, w.forceFullUnstake = kind, wi, true
+		t, m, _ := w.genTxs(parent, 1, 0)
+		w.forceKind, w.forceFullUnstake = 0, false
+		if len(t) == 1 && int(t[0].Version) == kind {
+			return t, m
+		}
+		return nil, nil
+	}
+	mk := func(parent *TNode, txs []*transaction.Transaction, meta []TxMeta) *TNode {
+		n := w.build(parent, BlockSpec{TsDelta: 15000, Recipient: w.wallets[rng.Intn(len(w.wallets))].Addr, Txs: txs, TxMeta: meta})
+		w.admit(n)
+		return n
+	}
+	// branch A: S, the lock time, T
+	var sTx []*transaction.Transaction
+	var sMeta []TxMeta
+	staker := -1
+	for k, start := 0, rng.Intn(len(w.wallets)); k < len(w.wallets) && staker < 0; k++ {
+		wi := (start + k) % len(w.wallets)
+		if t, m := force(base, 4, wi); t != nil {
+			sTx, sMeta, staker = t, m, wi
+		}
+	}
+	if staker < 0 {
+		return
+	}
+	a := []*TNode{mk(base, sTx, sMeta)}
+	if !a[0].Valid {
+		return
+	}
+	for i := uint64(0); i < config.STAKE_UNLOCK_TIME; i++ {
+		n := mk(a[len(a)-1], nil, nil)
+		if !n.Valid {
+			return
+		}
+		a = append(a, n)
+	}
+	tTx, tMeta := force(a[len(a)-1], 5, staker)
+	if tTx == nil {
+		return
+	}
+	at := mk(a[len(a)-1], tTx, tMeta)
+	if !at.Valid {
+		return
+	}
+	a = append(a, at)
+	for _, n := range a {
+		deliver(n)
+	}
+	// branch B: one empty block, S, the lock time, T, one more block
+	b := []*TNode{mk(base, nil, nil)}
+	b = append(b, mk(b[0], sTx, sMeta))
+	for i := uint64(0); i < config.STAKE_UNLOCK_TIME; i++ {
+		b = append(b, mk(b[len(b)-1], nil, nil))
+	}
+	nBeforeT := len(b)
+	b = append(b, mk(b[len(b)-1], tTx, tMeta))
+	b = append(b, mk(b[len(b)-1], nil, nil))
+	for _, n := range b {
+		if !n.Valid {
+			return
+		}
+	}
+	for _, n := range b {
+		deliver(n)
+	}
+	if w.nodeOfTop(h.NUT) != b[len(b)-1] {
+		return
+	}
+	h.Stats["sharedtx:unstake-connected-twice"]++
+	// branch C: B without T, longer
+	c := []*TNode{mk(b[nBeforeT-1], nil, nil)}
+	for i := 0; i < 3; i++ {
+		c = append(c, mk(c[len(c)-1], nil, nil))
+	}
+	for _, n := range c {
+		if !n.Valid {
+			return
+		}
+		op := deliver(n)
+		op.Dump = w.dump(h.NUT)
+	}
+	if w.nodeOfTop(h.NUT) == c[len(c)-1] {
+		h.Stats["sharedtx:unstake-undone-twice"]++
+	}
+	h.Stats["scenario-sharedtx"]++
 }
 
 // scenarioCorruptSweep: every single-rule corruption of an otherwise valid block, once each, on a live chain state
